@@ -18,7 +18,7 @@ from simdag.seams.ordfs import OrdFS, SimPhase, TapeChooser
 
 META = {"C04": {
     "level": "exploration",
-    "quick_runs": 6000,
+    "quick_runs": 50000,
     "block": 100,
     "thorough_budget_s": 600,
     "rule": ("one run = one seeded acyclic graph (8 shapes, adversarial ids, 1..12 statements quick / "
